@@ -116,6 +116,10 @@ class StmtMixin(ExecBase):
         if m is None:
             raise Unsupported("statement %s at line %d" % (type(s).__name__, s.lineno))
         c = getattr(ctx, "contract", None)
+        if self.inline_depth == 0 and getattr(ctx, "qual", None) == getattr(self, "top_qual", None):
+            body = getattr(s, "body", None)
+            last = (body[0].lineno - 1) if isinstance(body, list) and body else getattr(s, "end_lineno", s.lineno)
+            self.live_stmts.add((s.lineno, max(last, s.lineno)))
         lem = None
         if c is not None and c.lemmas and getattr(ctx, "qual", None) == getattr(self, "top_qual", None) and self.inline_depth == 0 \
                 and not isinstance(s, (ast.For, ast.While, ast.If, ast.Try, ast.FunctionDef, ast.ClassDef)):
